@@ -13,7 +13,7 @@ def disagreement_is_failing(req, impl, model):
 
 RULE = ("requests: (key, counter, stream, rounds) with keys {0, !0, single bit, random}, counters at 0..4, 2^32-5..2^32+1, 2^64-8..2^64-1 and random, "
         "stream ids {0,1,2^32-1,2^32,2^64-1,random}, rounds 8/12/20; two successive batches read through fill_bytes(256), 128 x next_u32 and mixed shapes; "
-        "the portable back end through the verif hook (one raw batch + counter afterwards); from_seed for edge seeds. Builds: SSE2 (default) and AVX2 (-C target-feature=+avx2); "
+        "the portable back end through the verif hook (one raw batch + counter afterwards); from_seed for edge seeds. Builds: SSE2 (default), AVX2 (-C target-feature=+avx2) and one build per further target feature the current source is conditional on; "
         "thorough: also release. extra: every returned byte attributed to the specification keystream (model-free). non-trivial = all; distinct = distinct request line")
 TRUSTED = ["the three block functions (slp.rs, sse2.rs, avx2.rs) are TRANSLATED from the current source text on every run (tools/extract_simd.py -> Generated/Simd.lean) into programs of a "
            "register machine over vectors of 32-bit lanes, and proved equal to the row-wise model / Bernstein's block function for every state and round count "
@@ -33,7 +33,10 @@ def regenerate():
 
 
 def builds(tier):
-    return ["dev", "avx2"] + (["release", "avx2-release"] if tier == "thorough" else [])
+    # one build per target feature the ChaCha code is conditional on (sse2 = the default build, avx2 = the AVX2 build; anything else the
+    # current source names - ssse3, sse4.1, avx ... - gets a build of its own: `keystream identical on every back end it can be compiled with`)
+    extra = [C.feature_build(f) for f in C.source_target_features() if f not in ("sse2", "avx2")]
+    return ["dev", "avx2"] + extra + (["release", "avx2-release"] if tier == "thorough" else [])
 
 
 def generate(r, tier, build):
